@@ -33,6 +33,14 @@ func RoundedCone(a, b vector3.Float64, r1, r2 float64) sample.Vec3ToFloat {
 	rr := r1 - r2
 	rrr := rr * rr
 	signRRR := sign(rr) * rrr
+	if rrr >= l2 {
+		// One end sphere contains (or internally touches) the other, or a == b:
+		// the shape is just the larger sphere. The formula below needs l2 > rrr.
+		if r1 >= r2 {
+			return Sphere(a, r1)
+		}
+		return Sphere(b, r2)
+	}
 	a2 := l2 - rrr
 	il2 := 1.0 / l2
 
